@@ -112,35 +112,3 @@ Ltac split_ifs2 :=
   end.
 Ltac wake_case :=
   unfold do_wk, wake_step, reg_step, is_empty; st_cbn; split_ifs2; gen_bools; enum_finish.
-
-Lemma winv_r_pstep : forall cap s, cinv s = true -> winv_r s = true -> winv_r (pstep false cap s) = true.
-Proof.
-  intros cap s HC H. rewrite cinv_is in HC. dst s. destruct xrw as [rr rk rs].
-  unfold winv_r, pstep in *. st_cbn.
-  revert H. apply implb_elim. revert HC. apply implb_elim.
-  destruct_pc xppc; wake_case.
-Qed.
-
-Lemma winv_r_cstep : forall cap s, cinv s = true -> winv_r s = true -> winv_r (cstep false cap s) = true.
-Proof.
-  intros cap s HC H. rewrite cinv_is in HC. dst s. destruct xrw as [rr rk rs].
-  unfold winv_r, cstep in *. st_cbn.
-  revert H. apply implb_elim. revert HC. apply implb_elim.
-  destruct_pc xcpc; wake_case.
-Qed.
-
-Lemma winv_s_pstep : forall cap s, cinv s = true -> winv_s cap s = true -> winv_s cap (pstep false cap s) = true.
-Proof.
-  intros cap s HC H. rewrite cinv_is in HC. dst s. destruct xsw as [sr sk ss].
-  unfold winv_s, pstep in *. st_cbn.
-  revert H. apply implb_elim. revert HC. apply implb_elim.
-  destruct_pc xppc; wake_case.
-Qed.
-
-Lemma winv_s_cstep : forall cap s, cinv s = true -> winv_s cap s = true -> winv_s cap (cstep false cap s) = true.
-Proof.
-  intros cap s HC H. rewrite cinv_is in HC. dst s. destruct xsw as [sr sk ss].
-  unfold winv_s, cstep in *. st_cbn.
-  revert H. apply implb_elim. revert HC. apply implb_elim.
-  destruct_pc xcpc; wake_case.
-Qed.
